@@ -37,7 +37,7 @@ def correspondence(ctx):
     out["failing_inputs"] += afails
     nstat["array_synonym_checks"] += astat.pop("alias_value_checks")
     nstat.update(astat)
-    rb, rn = raw_awkward_spellings()
+    rb, rn = raw_awkward_spellings("all" if ctx.tier == "thorough" else "nochain")     # the chains run in C04 in every tier
     out["disagreements"] += rb[:6]
     out["failing_inputs"] += [{"key": "awkward-raw-spelling:" + d.split(":")[0], "what": d[:300], "code": RAW_REPLAY} for d in rb[:3]]
     nstat["raw_awkward_spelling_reads"] = rn
@@ -328,7 +328,7 @@ for az in (("x", "y"), ("rho", "phi")):
                                         bad.append(f"{syn}: ({o1} then {o2}).{rd} on a Momentum{dim}D array with raw fields {names} = {got}; with geometric fields {geo} it is {want}")
 # item ASSIGNMENT on Awkward vector arrays (arr[name] = values replaces a field of the same array object): after every reader has been
 # used once (anything cached is warm), a field is assigned; every reader must then agree with a FRESH array built from the new columns
-if MODE in ("all", "assign"):
+if MODE in ("all", "nochain", "assign"):
     ALLREAD = ["x", "y", "rho", "phi", "z", "theta", "eta", "t", "tau", "px", "py", "pt", "pz", "E", "e", "energy", "M", "m", "mass", "mag", "p", "Et", "Mt", "tau2", "mass2", "t2",
                "energy2", "rapidity", "beta", "gamma", "costheta"]
     base = {"x": [3.0, -1.5, 0.25], "y": [4.0, 2.0, -0.5], "rho": [5.0, 2.5, 0.75], "phi": [0.3, -2.0, 1.1], "z": [1.0, -2.0, 0.5], "theta": [0.4, 2.0, 1.3],
